@@ -8,6 +8,7 @@ import FinProto.Gen
 import FinProto.Pinned
 import FinProto.Spec
 import FinProto.Registry
+import FinProto.Cost
 open FinProto FinProto.Wire
 
 def showOutcome (f : α → String) : Outcome α → String
@@ -96,6 +97,12 @@ def runLine (toks : List String) : String :=
     match pAlg [alg], n.toNat?, b.toNat? with
     | some (a, _), some n, some b => s!"ok | {cksNat a (List.replicate n (UInt8.ofNat b))}"
     | _, _, _ => "bad-case"
+  | ["cost", ty, hex] =>
+    match ty.toNat?, parseHex hex with
+    | some ty, some bs =>
+      let c := (decTyC env (fun _ => 512) env.fuel ty bs).2
+      s!"ok | {c.steps} {c.alloc} {c.maxReq}"
+    | _, _ => "bad-case"
   | "reg" :: rest =>
     match parseCalls rest with
     | some cs => "ok |" ++ String.join ((Reg.runSpec [] cs).2.map showRes)
